@@ -8,6 +8,14 @@ sent to the Lean driver `drv_c02` together with a text; the lax outcome of the r
 `XsdSimpleType.decode` (value + error classes) is compared with the model's.  `pattern` facets and
 `float()` have no Lean semantics: the model consumes the implementation's own verdicts (traced).
 
+Unit correspondence (`unit_ops`): every model function that a theorem of Props/C02.lean is about is compared on
+generated inputs with the function of /repo (or elementpath) it ports: normalize() of the three white-space modes
+and list splitting, decimal_to_python / str(Decimal) / python_to_decimal / count_digits / Decimal comparison,
+integer_to_python / python_to_int, boolean map, HexBinary / Base64Binary (validate, len, str), Date.fromstring / str;
+the clauses the theorems state (lexical space, value, round trip, digit counts, collapse shape, length in octets)
+are evaluated on the real functions at the same time.  The witnesses of the `_counterexample` theorems are
+replayed on the real code (`replay_counterexamples`).
+
 Property evaluation on the real code (independent of Lean): an independent Python reading of XSD
 Part 2 (`lib_datatypes.spec_builtin`, `spec_type` below) judges validity and value; the decoded
 value must denote the XSD value; `encode(decode(t))` must decode to the same value; `is_valid`, the
@@ -29,14 +37,19 @@ from harness.lib_datatypes import XSD, Unsupported
 PROPS = 'XsVerif.Props.C02'
 AUDIT = 'XsVerif.Audit.C02'
 LEAN_TARGETS = ['XsVerif.Props.C02', 'drv_c02']
-LEANCHECK = ['XsVerif.Model.Datatypes', 'XsVerif.Model.DatatypesDate', 'XsVerif.Props.C02']
+LEANCHECK = ['XsVerif.Model.Datatypes', 'XsVerif.Model.DatatypesDate', 'XsVerif.Model.DatatypesEnc',
+             'XsVerif.Lemmas.Datatypes', 'XsVerif.Lemmas.DatatypesDec', 'XsVerif.Lemmas.DatatypesEnc',
+             'XsVerif.Lemmas.DatatypesWs', 'XsVerif.Lemmas.DatatypesBin', 'XsVerif.Lemmas.DatatypesDateLex',
+             'XsVerif.Lemmas.DatatypesDateRt', 'XsVerif.Props.C02']
 RULE = ('a case is one (XSD version, simple type, text); types: every built-in atomic type of both versions, '
         'seeded restriction chains (facet sets drawn from the admitted set, two derivation levels), lists and '
         'unions over them; texts: a boundary catalogue per lexical family (bounds +-1, digit-count edges, leap '
         'days, 24:00:00, timezone limits, sign/zero forms, separators, non-ASCII digits and spaces) plus seeded '
         'character-level mutations; non-trivial = the text is not rejected by the very first lexical check with '
         'an empty value, i.e. it is valid, or it is invalid with a decoded value (a facet/validator/pattern '
-        'branch decided), or it is a near-miss produced by mutating a valid literal; distinct by canonical JSON')
+        'branch decided), or it is a near-miss produced by mutating a valid literal; distinct by canonical JSON; '
+        'unit cases (one converter/encoder/normaliser call on one text) are non-trivial when the text is accepted '
+        '(or changed by the normaliser)')
 TRUSTED = ['pattern facets and Python float(): no Lean semantics, the model consumes the implementation\'s own '
            'verdicts recorded during the same call (oracle); their correctness is judged only by the independent '
            'Python reading (float lexical grammar) or not at all (user patterns)',
@@ -641,6 +654,21 @@ def known_match(case: dict, detail: Any) -> Optional[str]:
         if case.get('v') == '1.1' and names0 & {'date', 'dateTime', 'gYear', 'gYearMonth', 'dateTimeStamp'} and \
                 any(int(m.group(1)) >= 9999 for m in (re.match(r'-([0-9]{4,})', i) for i in items) if m):
             return 'C02-F10'
+        # C02-F4, elementpath sites, list manifestation: an item that consists of Python-only white space (data for
+        # the XSD list splitter since 2aa74a1) is stripped to an empty hexBinary/base64Binary value by elementpath
+        # and disappears when the list is written.  Rule: Python-only white space in the text, a list over such a
+        # built-in, and the value decoded again is exactly the implementation's value for the text without that
+        # white space.
+        if L.has_py_ws(text) and _contains_list(d) and names0 & {'hexBinary', 'base64Binary'} and \
+                case.get('_t') is not None and '_back' in case:
+            ep_ws = L.PY_ONLY_WS.replace('\xa0', '')
+            for drop in ((lambda i: i.strip(ep_ws)), (lambda i: ''.join(c for c in i if c not in ep_ws))):
+                cleaned = ' '.join(x for x in (drop(i) for i in re.split('[ \t\n\r]+', text)) if x)
+                if L.has_py_ws(cleaned.replace('\xa0', '')):
+                    continue
+                again = impl_eval(case['_t'], cleaned, case['_oracle'])
+                if not again.get('errs') and py_equal(again.get('value'), case['_back']):
+                    return 'C02-F4'
         return None
     if kind == 'spec-valid-impl-invalid' and _has_digit_facets_anywhere(d) and any(_ZERO7.match(i) for i in items):
         return 'C02-F5'
@@ -862,7 +890,7 @@ def one_case(ctx: Ctx, oracle: L.Oracle, batch: Optional[Batch], v11: bool, labe
                 # candidate for C02-F4: settled below against the model run with Python's white-space class
                 case['_pyws_pending'] = detail
             elif fid:
-                ctx.known_hit(fid)
+                ctx.known_hit(fid, _pub(case), detail)
                 case['_known'] = fid
             else:
                 ctx.failure('accepted/refused against the lexical space and facets of the type', _pub(case), detail)
@@ -872,7 +900,7 @@ def one_case(ctx: Ctx, oracle: L.Oracle, batch: Optional[Batch], v11: bool, labe
                 fid = known_match(case, {'kind': 'spec-invalid-impl-valid'}) if _contains_union(d) else None
                 if fid == 'C02-F11':
                     # a union member accepted the text through the time-zone equality defect
-                    ctx.known_hit(fid)
+                    ctx.known_hit(fid, _pub(case), bad)
                     case['_known'] = fid
                 elif L.has_py_ws(text):
                     case['_pyws_pending'] = {'kind': 'value', 'what': bad}
@@ -887,9 +915,10 @@ def one_case(ctx: Ctx, oracle: L.Oracle, batch: Optional[Batch], v11: bool, labe
             oracle.take()
             if not py_equal(back, impl['value']):
                 detail = {'kind': 'roundtrip', 'value': repr(impl['value']), 'encoded': enc, 'decoded_again': repr(back)}
+                case['_back'] = back
                 fid = known_match(case, detail)
                 if fid:
-                    ctx.known_hit(fid)
+                    ctx.known_hit(fid, _pub(case), detail)
                 else:
                     ctx.failure('encode(decode(text)) decodes to a different value', _pub(case), detail)
         except Exception as e:    # noqa
@@ -897,7 +926,7 @@ def one_case(ctx: Ctx, oracle: L.Oracle, batch: Optional[Batch], v11: bool, labe
             detail = {'kind': 'roundtrip', 'value': repr(impl['value']), 'error': repr(e)[:200]}
             fid = known_match(case, detail)
             if fid:
-                ctx.known_hit(fid)
+                ctx.known_hit(fid, _pub(case), detail)
             else:
                 ctx.failure('encode(decode(text)) fails', _pub(case), detail)
     nontrivial = valid or impl['value'] is not None or near_miss
@@ -941,8 +970,8 @@ def _settle_pyws_without_model(ctx: Ctx, case: dict, t: Any, text: str, oracle: 
     cleaned = ''.join(' ' if c in L.PY_ONLY_WS else c for c in text)
     a = impl_eval(t, cleaned, oracle)
     b = impl_eval(t, text, oracle)
-    if a.get('errs') == b.get('errs') and a.get('val') == b.get('val'):
-        ctx.known_hit('C02-F4')
+    if (a.get('errs') == b.get('errs') and a.get('val') == b.get('val')) or _f4_elementpath_strip(case, b):
+        ctx.known_hit('C02-F4', _pub(case), case.get('_pyws_pending'))
     else:
         ctx.failure('accepted/refused against the lexical space and facets of the type', _pub(case), case['_pyws_pending'])
 
@@ -964,19 +993,43 @@ def _zero7_case(case: dict) -> bool:
 
 
 def _f4_elementpath_strip(case: dict, impl: dict) -> bool:
-    """C02-F4, second call site: elementpath's `fromstring` strips Python white space from date/time and
-    duration literals.  Rule: the type involves such a built-in and the implementation's verdict is the one
-    implementation gives for the same text without the Python-only white space at the ends of its items
-    (and no such character remains elsewhere)."""
+    """C02-F4, call sites in elementpath: `fromstring` strips Python white space from date/time and duration
+    literals (datetime.py:408,1086); `AbstractBinary.__init__` collapses with `[^\\S\\xa0]+` (binary.py:56-61,
+    helpers.py:131,165), so Python-only white space is stripped from the ends of a hexBinary literal and removed
+    anywhere in a base64Binary literal.  Rule: the type involves such a built-in and the implementation's
+    outcome is the one the implementation gives for the same text without that white space (and no such
+    character remains)."""
     d = case['desc']
-    if not (_all_builtin_names(d) & (set(DT_TYPES) | set(DUR_TYPES) | {'dateTimeStamp'})):
+    names = _all_builtin_names(d)
+    if case.get('_t') is None:
         return False
-    items = [i.strip(L.PY_ONLY_WS + L.XML_WS) for i in re.split('[ \t\n\r]+', case['text'])]
-    cleaned = ' '.join(i for i in items if i)
-    if L.has_py_ws(cleaned) or case.get('_t') is None:
-        return False
-    again = impl_eval(case['_t'], cleaned, case['_oracle'])
-    return again.get('val') == impl.get('val') and again.get('errs') == impl.get('errs')
+    raw_items = [i for i in re.split('[ \t\n\r]+', case['text'])]
+    candidates = []
+    if names & (set(DT_TYPES) | set(DUR_TYPES) | {'dateTimeStamp', 'hexBinary', 'base64Binary'}):
+        candidates.append([i.strip(L.PY_ONLY_WS + L.XML_WS) for i in raw_items])
+    if names & {'base64Binary'}:
+        ep_ws = L.PY_ONLY_WS.replace('\xa0', '')
+        candidates.append([''.join(c for c in i if c not in ep_ws) for i in raw_items])
+    for items in candidates:
+        cleaned = ' '.join(i for i in items if i)
+        if L.has_py_ws(cleaned):
+            continue
+        again = impl_eval(case['_t'], cleaned, case['_oracle'])
+        if again.get('val') == impl.get('val') and again.get('errs') == impl.get('errs'):
+            return True
+        # list manifestation: an item made only of such white space is data for the XSD list splitter and is
+        # stripped by elementpath to the EMPTY binary value; apart from those items the outcome is the same
+        if _contains_list(d) and names & {'hexBinary', 'base64Binary'} and isinstance(impl.get('val'), dict) and \
+                isinstance(again.get('val'), dict) and 'l' in impl['val'] and 'l' in again['val'] and \
+                again.get('errs') == impl.get('errs'):
+            nonempty = [i for i in raw_items if i]
+            got = impl['val']['l']
+            if len(got) == len(nonempty):
+                kept = [g for g, c in zip(got, [i for i, r in zip(items, raw_items) if r]) if c]
+                dropped = [g for g, c in zip(got, [i for i, r in zip(items, raw_items) if r]) if not c]
+                if dropped and kept == again['val']['l'] and all(g in ({'x': ''}, {'y': ''}) for g in dropped):
+                    return True
+    return False
 
 
 def flush(ctx: Ctx, batch: Batch, drv: Driver) -> None:
@@ -993,7 +1046,7 @@ def flush(ctx: Ctx, batch: Batch, drv: Driver) -> None:
         mx = _proj(m)
         if mx == want:
             if case.get('_pyws_pending') and _f4_elementpath_strip(case, impl):
-                ctx.known_hit('C02-F4')
+                ctx.known_hit('C02-F4', _pub(case), case.get('_pyws_pending'))
             elif case.get('_pyws_pending'):
                 ctx.failure('accepted/refused against the lexical space and facets of the type', _pub(case),
                             case['_pyws_pending'])
@@ -1015,7 +1068,7 @@ def flush(ctx: Ctx, batch: Batch, drv: Driver) -> None:
         fids = settled.get(id(case))
         if fids:
             for f in fids:
-                ctx.known_hit(f)
+                ctx.known_hit(f, _pub(case), {'impl': want})
             continue
         if case.get('_pyws_pending'):
             ctx.failure('accepted/refused against the lexical space and facets of the type', _pub(case), case['_pyws_pending'])
@@ -1086,6 +1139,8 @@ def run(ctx: Ctx, driver_ok: bool) -> None:
         _run(ctx, drv, oracle)
     finally:
         oracle.uninstall()
+    unit_ops(ctx, drv)
+    replay_counterexamples(ctx)
     reconfirm_known(ctx)
 
 
@@ -1131,6 +1186,290 @@ def _run(ctx: Ctx, drv: Optional[Driver], oracle: L.Oracle, widen: bool = False)
         element_level(ctx, schema, good, v11, oracle)
     ctx.extra['explanation'] = ('built-in types x boundary catalogue is exhaustive over the catalogue; mutations and '
                                 'derived types are seeded samples')
+
+
+
+# ------------------------------------------------------------------------------------------------
+# unit correspondence: each model function that a theorem of Props/C02.lean talks about, against the
+# function of /repo it ports (driver requests with an `op` field), plus the clauses those theorems
+# state, evaluated directly on the real functions
+# ------------------------------------------------------------------------------------------------
+
+def gen_decimal(rng: Any) -> str:
+    """sign? zeros? digits ('.' zeros? digits zeros?)? with every shape of str(Decimal): plain, point with
+    a long/short coefficient, scientific (6 or more zeros after the point), zero at any scale"""
+    sign = rng.choice(['', '', '-', '+'])
+    lead = '0' * rng.choice([0, 0, 0, 1, 3])
+    k = rng.random()
+    if k < 0.15:
+        ip, fp = rng.choice(['0', '', '000']), '0' * rng.randrange(0, 12)
+    elif k < 0.45:
+        ip = str(rng.randrange(0, 10 ** rng.randrange(1, 9)))
+        fp = ''.join(rng.choice('0123456789') for _ in range(rng.randrange(0, 9))) + '0' * rng.choice([0, 0, 1, 3])
+    else:
+        ip = rng.choice(['', '0', '0', '00'])
+        fp = '0' * rng.randrange(0, 12) + str(rng.randrange(1, 10 ** rng.randrange(1, 6))) + '0' * rng.choice([0, 0, 1, 2, 7])
+    point = '.' if fp or rng.random() < 0.2 else ''
+    if not ip and not fp:
+        ip = '0'
+    return sign + lead + ip + point + fp
+
+
+def spec_digits(d: Decimal) -> tuple[int, int]:
+    """(digits of the integer part, least number of fraction digits) of |d|, by exact arithmetic"""
+    q = abs(Fraction(d))
+    fd = 0
+    while (q * 10 ** fd).denominator != 1:
+        fd += 1
+    ip = int(q)
+    return (len(str(ip)) if ip else 0), fd
+
+
+def unit_ops(ctx: Ctx, drv: Optional[Driver]) -> None:
+    import codecs
+    import xmlschema
+    from xmlschema.validators import helpers
+    from xmlschema.utils.decoding import count_digits
+    from elementpath.datatypes import HexBinary, Base64Binary, Date, Date10
+    rng = ctx.rng
+    n = ctx.pick(1500, 12000)
+    schema = xmlschema.XMLSchema11(HEAD + '<xs:simpleType name="L"><xs:list itemType="xs:string"/></xs:simpleType>'
+                                   '</xs:schema>')
+    t_pres, t_repl, t_coll = (schema.maps.types[XSD + x] for x in ('string', 'normalizedString', 'token'))
+    t_list = schema.types['L']
+    # the encoders in force for the built-ins (`from_python`; `str` when the table names none)
+    enc_dec, enc_int, enc_bool = (schema.maps.types[XSD + x].from_python for x in ('decimal', 'integer', 'boolean'))
+    reqs: list = []
+    pend: list = []
+
+    def add(op: str, req: dict, impl: Any, case: dict, nontrivial: bool) -> None:
+        ctx.case(case, nontrivial, tag='unit/' + op)
+        if drv is not None:
+            reqs.append(dict(req, op=op))
+            pend.append((op, case, impl))
+
+    # ---- white space: normalize() of the three modes, list splitting; shape + idempotence on the real code
+    ws_pool = ['', ' ', '  ', 'a', ' a', 'a ', ' a ', 'a  b', 'a\tb', '\ta\n', 'a\r\nb', ' \t\n\r', 'a \t b  c ',
+               '\xa0a\xa0', 'a b', '\x0ca', 'a\u2003', ' \xa0 ', 'a \xa0 b']   # (no U+0085/U+2028: the line protocol splits on them)
+    for _ in range(n):
+        ws_pool.append(''.join(rng.choice(' \t\n\rab ' + '  \xa0 \x0c') for _ in range(rng.randrange(0, 12))))
+    for text in dict.fromkeys(ws_pool):
+        case = {'unit': 'ws', 'text': text}
+        c, r, p = t_coll.normalize(text), t_repl.normalize(text), t_pres.normalize(text)
+        words = t_list.decode(text, validation='lax')[0]
+        bad = None
+        if p != text:
+            bad = 'preserve changed the text'
+        elif len(r) != len(text) or any(ch in '\t\n\r' for ch in r):
+            bad = 'replace: length changed or tab/LF/CR left'
+        elif any(ch in '\t\n\r' for ch in c) or c[:1] == ' ' or c[-1:] == ' ' or '  ' in c:
+            bad = 'collapse: tab/LF/CR, leading/trailing or double blank left'
+        elif t_coll.normalize(c) != c:
+            bad = 'collapse is not idempotent'
+        elif words != [w for w in c.split(' ') if w]:
+            bad = 'list items are not the words of the collapsed text'
+        if bad:
+            ctx.failure('white-space normalisation: ' + bad, case, {'collapse': c, 'replace': r, 'items': words})
+        add('ws', {'text': text}, {'collapse': c, 'replace': r, 'words': words}, case, c != text)
+
+    # ---- xs:decimal: converter, str(Decimal), plain encoder, count_digits, comparison
+    dec_pool = [x for x in catalogue('decimal')]
+    for _ in range(n):
+        dec_pool.append(gen_decimal(rng))
+    for _ in range(n // 4):
+        dec_pool.append(mutate(rng, gen_decimal(rng)))
+    decs: list = []
+    for text in dict.fromkeys(dec_pool):
+        case = {'unit': 'dec', 'text': text}
+        try:
+            d = helpers.decimal_to_python(text)
+        except ValueError:
+            d = None
+        lex = bool(L._RX['decimal'].match(text))
+        if (d is not None) != lex:
+            ctx.failure('decimal_to_python accepts/refuses against the lexical space of xs:decimal', case, repr(d))
+        if d is None:
+            add('dec', {'text': text}, {'val': None}, case, False)
+            continue
+        decs.append(text)
+        plain = enc_dec(d)
+        try:
+            back = helpers.decimal_to_python(plain)
+        except ValueError:
+            back = None
+        digits = count_digits(d)
+        if Fraction(d) != Fraction(Decimal(text)) or d.as_tuple() != Decimal(text).as_tuple():
+            ctx.failure('decimal value differs from the value of the literal', case, repr(d))
+        if back is None or back.as_tuple() != d.as_tuple():
+            ctx.failure('encode(decode(text)) of xs:decimal does not decode to the same value', case,
+                        {'kind': 'roundtrip', 'encoded': plain, 'decoded_again': repr(back)})
+        if tuple(digits) != spec_digits(d):
+            ctx.failure('count_digits differs from (integer digits, fraction digits) of the value', case,
+                        {'count_digits': list(digits), 'value': spec_digits(d)})
+        impl = {'val': L.aval_json(d)['d'], 'str': str(d), 'plain': plain, 'digits': list(digits),
+                'reparse': None if back is None else L.aval_json(back)['d']}
+        ctx.count('unit:dec-shape:' + ('sci' if 'E' in str(d) else 'point' if '.' in str(d) else 'plain'))
+        add('dec', {'text': text}, impl, case, True)
+    for _ in range(n):
+        a, b = rng.choice(decs), rng.choice(decs)
+        if rng.random() < 0.3:
+            b = a.lstrip('+-').rstrip('0') + ('' if '.' in a else '.') + '0' * rng.randrange(0, 3) if a else b
+            if not L._RX['decimal'].match(b):
+                b = a
+        x, y = Decimal(a), Decimal(b)
+        fx, fy = Fraction(x), Fraction(y)
+        impl = {'lt': x < y, 'le': x <= y, 'eq': x == y}
+        case = {'unit': 'cmp', 'a': a, 'b': b}
+        if impl != {'lt': fx < fy, 'le': fx <= fy, 'eq': fx == fy}:
+            ctx.failure('Decimal comparison differs from the order of the rationals', case, impl)
+        add('cmp', {'a': a, 'b': b}, impl, case, True)
+
+    # ---- integers: converter, encoder, count_digits
+    int_pool = catalogue('integer') + [str(rng.randrange(-10 ** 25, 10 ** 25)) for _ in range(n // 4)] + \
+        [mutate(rng, rng.choice(['0', '-12', '+007', '123456789012345678901'])) for _ in range(n // 4)]
+    for text in dict.fromkeys(int_pool):
+        case = {'unit': 'int', 'text': text}
+        try:
+            i = helpers.integer_to_python(text)
+        except ValueError:
+            add('int', {'text': text}, {'val': None}, case, False)
+            continue
+        enc = enc_int(i)
+        if helpers.integer_to_python(enc) != i:
+            ctx.failure('encode(decode(text)) of an integer does not decode to the same value', case, enc)
+        add('int', {'text': text}, {'val': str(i), 'enc': enc, 'digits': list(count_digits(i))}, case, True)
+
+    # ---- boolean
+    for text in dict.fromkeys(catalogue('boolean')):
+        case = {'unit': 'bool', 'text': text}
+        try:
+            b = helpers.boolean_to_python(text)
+        except Exception:   # noqa  (XMLSchemaValueError)
+            add('bool', {'text': text}, {'val': None}, case, False)
+            continue
+        enc = enc_bool(b)
+        if helpers.boolean_to_python(enc) is not b:
+            ctx.failure('encode(decode(text)) of xs:boolean does not decode to the same value', case, enc)
+        add('bool', {'text': text}, {'val': b, 'enc': enc}, case, True)
+
+    # ---- hexBinary (on the text collapsed by the type, as raw_decode passes it), base64Binary
+    hex_pool = catalogue('hexBinary') + [''.join(rng.choice('0123456789abcdefABCDEF') for _ in range(rng.randrange(0, 13)))
+                                         for _ in range(n // 3)]
+    hex_pool += [mutate(rng, x) for x in rng.sample(hex_pool, min(len(hex_pool), n // 6)) if x]
+    for text in dict.fromkeys(hex_pool):
+        norm = t_coll.normalize(text)
+        case = {'unit': 'hex', 'text': norm}
+        try:
+            h = HexBinary(norm)
+        except (ValueError, TypeError):
+            add('hex', {'text': norm}, {'ok': False}, case, False)
+            continue
+        octets = codecs.decode(h.value, 'hex')
+        if len(h) != len(octets):
+            ctx.failure('len() of a hexBinary value is not its number of octets', case, len(h))
+        again = HexBinary(str(h))
+        if again != h or len(again) != len(h):
+            ctx.failure('encode(decode(text)) of xs:hexBinary does not decode to the same value', case, str(h))
+        add('hex', {'text': norm}, {'ok': True, 'len': len(h), 'enc': str(h)}, case, True)
+    b64c = 'ABCDEFGHIJKLMNOPQRSTUVWXYZabcdefghijklmnopqrstuvwxyz0123456789+/'
+    b64_pool = catalogue('base64Binary')
+    for _ in range(n // 3):
+        raw = bytes(rng.randrange(256) for _ in range(rng.randrange(0, 9)))
+        enc = codecs.encode(raw, 'base64').decode().replace('\n', '')
+        if rng.random() < 0.3:
+            enc = ' '.join(enc)
+        b64_pool.append(enc)
+        b64_pool.append(''.join(rng.choice(b64c) for _ in range(rng.randrange(0, 10))) + rng.choice(['', '=', '==']))
+    b64_pool += [mutate(rng, x) for x in rng.sample(b64_pool, min(len(b64_pool), n // 6)) if x]
+    for text in dict.fromkeys(b64_pool):
+        norm = t_coll.normalize(text)
+        case = {'unit': 'b64', 'text': norm}
+        try:
+            v = Base64Binary(norm)
+        except (ValueError, TypeError):
+            add('b64', {'text': norm}, {'ok': False}, case, False)
+            continue
+        lit = v.value.decode()
+        try:
+            octets = codecs.decode(v.value, 'base64')
+        except Exception:   # noqa
+            octets = None
+        if octets is None or len(v) != len(octets):
+            ctx.failure('len() of a base64Binary value is not its number of octets', case, len(v))
+        again = Base64Binary(str(v))
+        if again.value != v.value:
+            ctx.failure('encode(decode(text)) of xs:base64Binary does not decode to the same value', case, str(v))
+        add('b64', {'text': norm}, {'ok': True, 'val': lit, 'len': len(v), 'enc': str(v), 'reparse': again.value.decode()},
+            case, True)
+
+    # ---- xs:date: `fromstring` + constructor + `str()` of both versions (model vs implementation only; the
+    #      verdicts are judged against XSD by the main run)
+    date_pool = catalogue('date')
+    date_pool += [mutate(rng, rng.choice(date_pool)) for _ in range(n // 2)]
+    for _ in range(n // 2):
+        y = rng.choice([rng.randrange(1, 10000), rng.randrange(-12000, 12000), rng.randrange(-2 ** 31 - 2, 2 ** 31 + 2)])
+        ys = ('-' if y < 0 else '') + f'{abs(y):04d}'
+        date_pool.append(f'{ys}-{rng.randrange(0, 14):02d}-{rng.randrange(0, 33):02d}' + rng.choice(TZS[:9]))
+    for text in dict.fromkeys(date_pool):
+        for v11, cls in ((True, Date), (False, Date10)):
+            case = {'unit': 'date', 'text': text, 'v': '1.1' if v11 else '1.0'}
+            try:
+                v = cls.fromstring(text)
+            except (ValueError, ArithmeticError):
+                add('date', {'text': text, 'v11': v11}, {'val': None}, case, False)
+                continue
+            add('date', {'text': text, 'v11': v11}, {'val': L.aval_json(v), 'str': str(v)}, case, True)
+
+    if drv is not None:
+        for (op, case, impl), m in zip(pend, drv.query(reqs)):
+            ctx.traces += 1
+            ctx.count('unit-compared:' + op)
+            if 'err' in m:
+                ctx.mismatch('unit:' + op, case, impl, {'driver-error': m['err']})
+            elif m != impl:
+                ctx.mismatch('unit:' + op, case, impl, m)
+
+
+
+def replay_counterexamples(ctx: Ctx) -> None:
+    """the witnesses of the `_counterexample` theorems of Props/C02.lean, on the real code: the implementation must
+    behave as the theorem says the model does (otherwise the model no longer describes it)"""
+    import xmlschema
+    from elementpath.datatypes import Date
+    obs: dict = {}
+
+    def attempt(f: Any) -> Any:
+        try:
+            return f()
+        except (ValueError, ArithmeticError) as e:
+            return 'raises ' + type(e).__name__
+
+    # date_lex_counterexample / leap_year_counterexample (C02-F6)
+    obs['date 10000-02-29 (1.1)'] = attempt(lambda: str(Date.fromstring('10000-02-29')))
+    obs['date 10003-02-29 (1.1)'] = attempt(lambda: str(Date.fromstring('10003-02-29')))
+    # date_roundtrip_counterexample (C02-F10)
+    v = Date.fromstring('-9999-01-01')
+    obs['date -9999-01-01 (1.1)'] = [v.year, str(v), Date.fromstring(str(v)).year]
+    # binary_whitespace_counterexample (C02-F4, elementpath binary site)
+    sch = xmlschema.XMLSchema11(HEAD + '<xs:element name="h" type="xs:hexBinary"/><xs:element name="b" type="xs:base64Binary"/>'
+                                '</xs:schema>')
+    obs['hexBinary 4a<U+2003>'] = sch.maps.types[XSD + 'hexBinary'].is_valid('4a\u2003')
+    obs['base64Binary Y<U+2003>WJj'] = sch.maps.types[XSD + 'base64Binary'].is_valid('Y\u2003WJj')
+    # countDigits_counterexample (C02-F5, repaired side) and decimal round trip of the former C02-F9 witness
+    from xmlschema.utils.decoding import count_digits
+    from xmlschema.validators import helpers
+    obs['count_digits 0E-7'] = list(count_digits(Decimal('0.0000000')))
+    obs['python_to_decimal 1E-7'] = sch.maps.types[XSD + 'decimal'].from_python(Decimal('0.0000001'))
+    want = {'date 10000-02-29 (1.1)': 'raises ValueError', 'date 10003-02-29 (1.1)': '10003-02-29',
+            'date -9999-01-01 (1.1)': [-10000, '-10000-01-01', -10001],
+            'hexBinary 4a<U+2003>': True, 'base64Binary Y<U+2003>WJj': True,
+            'count_digits 0E-7': [0, 0], 'python_to_decimal 1E-7': '0.0000001'}
+    for k, w in want.items():
+        ctx.traces += 1
+        ctx.count('witness-replayed')
+        if obs.get(k) != w:
+            ctx.mismatch('counterexample witness', {'witness': k}, obs.get(k), w)
+    ctx.extra['counterexample_witnesses'] = obs
 
 
 def element_level(ctx: Ctx, schema: Any, good: list, v11: bool, oracle: L.Oracle) -> None:
